@@ -1,22 +1,23 @@
 #!/bin/sh
 # usage: tools/mut/try.sh <PID> <patch.diff> [tier]
-# Runs ./check PID from an isolated copy of the committed /verif (/tmp/vm, own .lake) against a scratch
+# Runs ./check PID from an isolated copy of the committed /verif ($VM, own .lake) against a scratch
 # worktree of /repo HEAD with the patch applied (VERIF_REPO), so builders working in /verif and /repo are
 # not disturbed. Prints the check's output; removes the scratch worktree afterwards.
 PID="$1"; PATCH="$(readlink -f "$2")"; TIER="${3:-quick}"
 V="$(cd "$(dirname "$0")/../.." && pwd)"
-exec 8>/tmp/.verif_vm.lock; flock 8
+VM="${VERIF_VM:-/tmp/vm}"
+exec 8>"/tmp/.verif_$(basename $VM).lock"; flock 8
 HEAD=$(git -C "$V" rev-parse HEAD)
-if [ ! -d /tmp/vm/.git ] && [ ! -f /tmp/vm/.git ]; then git -C "$V" worktree add -q --detach /tmp/vm "$HEAD" || exit 2; fi
-git -C /tmp/vm clean -fdq -e lean/.lake -e replays; git -C /tmp/vm checkout -q -f --detach "$HEAD" || exit 2
-mkdir -p /tmp/vm/lean/.lake
-WT=/tmp/mut/try_$$
+if [ ! -d $VM/.git ] && [ ! -f $VM/.git ]; then git -C "$V" worktree add -q --detach $VM "$HEAD" || exit 2; fi
+git -C $VM clean -fdq -e lean/.lake -e replays; git -C $VM checkout -q -f --detach "$HEAD" || exit 2
+mkdir -p $VM/lean/.lake
+WT=/tmp/mut/try_$(basename $VM)_$$
 git -C /repo worktree add -q --detach "$WT" HEAD || exit 2
 if ! git -C "$WT" apply "$PATCH"; then echo "PATCH DOES NOT APPLY to /repo HEAD"; git -C /repo worktree remove --force "$WT"; exit 3; fi
-cd /tmp/vm
+cd $VM
 VERIF_REPO="$WT" timeout 3000 ./check "$PID" --tier "$TIER"; RC=$?
 # restore Gen files of the copy to the unchanged tree
-git -C /tmp/vm checkout -q -- lean/Srctools/Gen 2>/dev/null
+git -C $VM checkout -q -- lean/Srctools/Gen 2>/dev/null
 git -C /repo worktree remove --force "$WT"
 echo "try.sh: check exit code $RC"
 exit $RC
